@@ -6,6 +6,7 @@ import (
 	"go/token"
 	"go/types"
 	"math/big"
+	"sort"
 	"strings"
 
 	"golang.org/x/tools/go/ssa"
@@ -105,6 +106,10 @@ func (vc *VC) run() {
 		v := vc.fresh(fv.Type(), "fv_"+fv.Name())
 		vc.vals[fv] = v
 		vc.params[fv.Name()] = v
+		if v.K == KPtr {
+			// the cell of a captured variable always exists
+			vc.fact("true", and(lt("0", v.obj()), lt(v.obj(), "$A0")))
+		}
 	}
 	// lets + requires
 	env := vc.entryEnv()
@@ -190,7 +195,43 @@ func (vc *VC) mergeMems(conds []string, mems []*Mem) *Mem {
 			keys[k] = true
 		}
 	}
+	// wildcard havocs: identical histories are kept; otherwise every prefix havocked on some
+	// branch is havocked again with a new epoch (a sound over-approximation of each branch)
+	sameWild := true
+	for _, m := range mems[1:] {
+		if len(m.wild) != len(mems[0].wild) {
+			sameWild = false
+			break
+		}
+		for i := range m.wild {
+			if m.wild[i] != mems[0].wild[i] {
+				sameWild = false
+			}
+		}
+	}
+	if sameWild {
+		out.wild = append([]wildHavoc(nil), mems[0].wild...)
+	}
+	lazyParents := func() bool {
+		for _, m := range mems {
+			if len(m.lazyMems) > 0 {
+				return true
+			}
+		}
+		return false
+	}()
+	if !sameWild || lazyParents {
+		// keys not materialised yet are resolved on first use as the ite over the joined memories
+		out.wild = nil
+		out.lazyConds = append([]string(nil), conds...)
+		out.lazyMems = append([]*Mem(nil), mems...)
+	}
+	var sorted []string
 	for k := range keys {
+		sorted = append(sorted, k)
+	}
+	sort.Strings(sorted)
+	for _, k := range sorted {
 		leaf := vc.keySort[k]
 		var terms []string
 		same := true
@@ -390,6 +431,10 @@ func (vc *VC) enterLoop(b *ssa.BasicBlock, l *loopInfo) {
 	vc.R[b] = vc.def("Rloop", SBool, or(conds...))
 	vc.curMem = pre
 	for _, m := range l.mods {
+		if p, wild := isWildKey(m.key); wild {
+			vc.havocPrefix(vc.curMem, p)
+			continue
+		}
 		leaf, ok := vc.keySort[m.key]
 		if !ok {
 			leaf = SInt
